@@ -175,7 +175,7 @@ func (e *Env) RFragOrder() {
 	e.Run.Check("R-FRAG", "fragment sorts exactly once", e.Prog.Pos(fd.Pos()), nSort == 1, fmt.Sprintf("%d sort calls", nSort))
 	// every comment becomes a fragment: in processFile, the loops over astf.Comments / cg.List reach
 	// addCommentFragment(c.Text, c.Slash) unconditionally (no continue/break before it)
-	lit, _ := funcLitNamed(info, fd, "processFile")
+	lit := e.perFilePass(pkg, fd)
 	if lit != nil {
 		ok := false
 		ast.Inspect(lit.Body, func(n ast.Node) bool {
@@ -208,6 +208,29 @@ func (e *Env) RFragOrder() {
 		posLine := regexp.MustCompile(`^f\.(?:Fset\.Position(?:For)?|\w+)\((.*?)(?:, (?:true|false))?\)\.Line(?: [+-] \d+)?$`)
 		ident := regexp.MustCompile(`([A-Za-z_]\w*)\.`)
 		nAvoid := 0
+		checkSpanAt := func(fromInner, toInner string, at ast.Node, key string) {
+			roots := map[string]bool{}
+			for _, inner := range []string{fromInner, toInner} {
+				for _, m := range ident.FindAllStringSubmatch(inner, -1) {
+					if m[1] != "token" {
+						roots[m[1]] = true
+					}
+				}
+			}
+			// the text test that selects the entity (strings.HasPrefix(X.Text|X.String, …)) names it too
+			if guard, okg := pathCond(c, lit.Body.List, at); okg {
+				for _, m := range regexp.MustCompile(`strings\.HasPrefix\(([A-Za-z_]\w*)\.`).FindAllStringSubmatch(guard, -1) {
+					roots[m[1]] = true
+				}
+			}
+			var names []string
+			for r := range roots {
+				names = append(names, r)
+			}
+			sort.Strings(names)
+			e.Run.Check("R-FRAG", key, e.Prog.Pos(at.Pos()), len(names) == 1,
+				"lines of "+fromInner+" .. "+toInner+" mix the extents of different things ("+strings.Join(names, ", ")+"): newlines between them are suppressed (or newlines inside are kept) and the text is printed on other lines")
+		}
 		ast.Inspect(lit.Body, func(n ast.Node) bool {
 			fs, ok := n.(*ast.ForStmt)
 			if !ok || fs.Init == nil || fs.Cond == nil {
@@ -242,29 +265,7 @@ func (e *Env) RFragOrder() {
 				e.Run.Check("R-FRAG", key, e.Prog.Pos(fs.Pos()), false, "bounds `"+from+"` .. `"+to+"` are not lines of positions in the file set")
 				return true
 			}
-			checkSpan := func(fromInner, toInner string, at ast.Node, key string) {
-				roots := map[string]bool{}
-				for _, inner := range []string{fromInner, toInner} {
-					for _, m := range ident.FindAllStringSubmatch(inner, -1) {
-						if m[1] != "token" {
-							roots[m[1]] = true
-						}
-					}
-				}
-				// the text test that selects the entity (strings.HasPrefix(X.Text|X.String, …)) names it too
-				if guard, okg := pathCond(c, lit.Body.List, at); okg {
-					for _, m := range regexp.MustCompile(`strings\.HasPrefix\(([A-Za-z_]\w*)\.`).FindAllStringSubmatch(guard, -1) {
-						roots[m[1]] = true
-					}
-				}
-				var names []string
-				for r := range roots {
-					names = append(names, r)
-				}
-				sort.Strings(names)
-				e.Run.Check("R-FRAG", key, e.Prog.Pos(at.Pos()), len(names) == 1,
-					"lines of "+fromInner+" .. "+toInner+" mix the extents of different things ("+strings.Join(names, ", ")+"): newlines between them are suppressed (or newlines inside are kept) and the text is printed on other lines")
-			}
+			checkSpan := checkSpanAt
 			// the loop may live in a local closure span(from, to): then every call site is a range
 			var inner *ast.FuncLit
 			ast.Inspect(lit.Body, func(m ast.Node) bool {
@@ -312,6 +313,52 @@ func (e *Env) RFragOrder() {
 			checkSpan(mf[1], mt[1], fs, key)
 			return true
 		})
+		// the marking loop may live in a function of the package that is handed the set and the two
+		// positions: every call site in the per-file pass is a range
+		ast.Inspect(lit.Body, func(n ast.Node) bool {
+			call, ok := n.(*ast.CallExpr)
+			if !ok {
+				return true
+			}
+			mk := e.markingFuncOf(pkg, call)
+			if mk == nil {
+				return true
+			}
+			undoH := c.InstallReaching(mk.decl)
+			var from, to string
+			ast.Inspect(mk.decl.Body, func(m ast.Node) bool {
+				fs, ok := m.(*ast.ForStmt)
+				if !ok || fs.Init == nil || fs.Cond == nil {
+					return true
+				}
+				init, ok1 := fs.Init.(*ast.AssignStmt)
+				cond, ok2 := fs.Cond.(*ast.BinaryExpr)
+				if ok1 && ok2 && len(init.Rhs) == 1 {
+					from, to = c.ExprStr(init.Rhs[0]), c.ExprStr(cond.Y)
+				}
+				return true
+			})
+			undoH()
+			mfm, mtm := posLine.FindStringSubmatch(from), posLine.FindStringSubmatch(to)
+			nAvoid++
+			key := fmt.Sprintf("fragment: avoided line range #%d spans one entity", nAvoid)
+			pidx := map[string]int{}
+			for i, p := range mk.params {
+				pidx[p] = i
+			}
+			if mfm == nil || mtm == nil {
+				e.Run.Check("R-FRAG", key, e.Prog.Pos(call.Pos()), false, "bounds `"+from+"` .. `"+to+"` of the marking loop in "+mk.decl.Name.Name+" are not lines of positions in the file set")
+				return true
+			}
+			fi, okf := pidx[mfm[1]]
+			ti, okt := pidx[mtm[1]]
+			if !okf || !okt {
+				e.Run.Check("R-FRAG", key, e.Prog.Pos(call.Pos()), false, "the marking loop in "+mk.decl.Name.Name+" runs from `"+from+"` to `"+to+"`, which are not the lines of two of its position parameters")
+				return true
+			}
+			checkSpanAt(c.ExprStr(call.Args[fi]), c.ExprStr(call.Args[ti]), call, key)
+			return true
+		})
 		undo()
 		e.Run.Floor("R-FRAG", "avoided line ranges in fragment()", nAvoid, 2)
 	}
@@ -321,9 +368,15 @@ func (e *Env) RFragOrder() {
 	// under a path condition that has `found` as a conjunct (e.g. after `if !found { panic }`). A
 	// search that can give up silently leaves a comment or newline unattached (it disappears from
 	// the output) or dereferences a nil decoration point.
-	lk := load.FuncDecl(pkg, "fileDecorator", "link")
 	nLoops := 0
-	if lk != nil && lk.Body != nil {
+	// (link() itself, and the helpers that a retry sequence may have been moved into)
+	var searchUsers []*ast.FuncDecl
+	for _, d := range load.AllFuncDecls(pkg) {
+		if d.Body != nil && d.Recv != nil && strings.HasSuffix(e.Prog.File(d.Pos()), "decorator-fragment.go") {
+			searchUsers = append(searchUsers, d)
+		}
+	}
+	for _, lk := range searchUsers {
 		type pair struct{ dec, found types.Object }
 		var pairs []pair
 		objOf := func(x ast.Expr) types.Object {
@@ -367,6 +420,13 @@ func (e *Env) RFragOrder() {
 				return true
 			}
 			d, f := objOf(as.Lhs[len(as.Lhs)-2]), objOf(as.Lhs[len(as.Lhs)-1])
+			if d != nil && f == nil {
+				// the decoration point is kept, whether the search succeeded is thrown away
+				nLoops++
+				e.Run.Check("R-FRAG", "link: a decoration point from findDecoration is used only after the search succeeded", e.Prog.Pos(as.Pos()), false,
+					"the `found` result of the search is discarded while its decoration point `"+d.Name()+"` is kept: a search that gives up leaves a nil decoration point behind")
+				return true
+			}
 			if d == nil || f == nil {
 				return true
 			}
@@ -491,7 +551,42 @@ func (e *Env) RStageMonotone() {
 		return true
 	})
 	if stage == nil {
-		e.Run.Undecided("R-FRAG", "findIndentedComments: the stage only moves forward", e.Prog.Pos(fd.Pos()), "no int local indexing the result array")
+		// the two groups may be kept in separate variables, selected by flags: then "the stage only
+		// moves forward" says that every bool local of the search, once raised, is never lowered
+		// (a flag that is set back re-opens the first group after the second has started)
+		lowered, flags := "", 0
+		ast.Inspect(fd.Body, func(n ast.Node) bool {
+			as, ok := n.(*ast.AssignStmt)
+			if !ok || len(as.Lhs) != len(as.Rhs) {
+				return true
+			}
+			for i, l := range as.Lhs {
+				id, ok := l.(*ast.Ident)
+				if !ok {
+					continue
+				}
+				o := info.Uses[id]
+				if o == nil {
+					o = info.Defs[id]
+				}
+				if o == nil {
+					continue
+				}
+				if b, ok := o.Type().Underlying().(*types.Basic); !ok || b.Kind() != types.Bool {
+					continue
+				}
+				flags++
+				if c.ExprStr(as.Rhs[i]) != "true" {
+					lowered = id.Name + " = " + c.ExprStr(as.Rhs[i]) + " at " + e.Prog.Pos(as.Pos())
+				}
+			}
+			return true
+		})
+		if flags > 0 && lowered == "" {
+			e.Run.OK("R-FRAG", "findIndentedComments: the stage only moves forward", e.Prog.Pos(fd.Pos()), fmt.Sprintf("no indexed stage; %d flag assignments, all raising", flags))
+			return
+		}
+		e.Run.Undecided("R-FRAG", "findIndentedComments: the stage only moves forward", e.Prog.Pos(fd.Pos()), "no int local indexing the result array"+map[bool]string{true: "", false: "; a flag is set to something other than true: " + lowered}[lowered == ""])
 		return
 	}
 	type asg struct {
@@ -838,4 +933,143 @@ func (e *Env) RSearchTransparency() {
 		})
 	}
 	e.Run.Floor("R-FRAG", "comment arms of decoration searches", n, 2)
+}
+
+// markingFunc: a function or method of the package that stores `true` into a map[int]bool it is
+// handed as a parameter (the avoided-lines set of the per-file pass). mapIdx is the index of that
+// parameter, params the names of all parameters in order.
+type markingFunc struct {
+	decl   *ast.FuncDecl
+	mapIdx int
+	params []string
+}
+
+func (e *Env) markingFuncOf(pkg *packages.Package, call *ast.CallExpr) *markingFunc {
+	info := pkg.TypesInfo
+	fn := calleeFunc(info, call)
+	if fn == nil || fn.Pkg() != pkg.Types {
+		return nil
+	}
+	for _, d := range load.AllFuncDecls(pkg) {
+		if info.Defs[d.Name] != types.Object(fn) || d.Body == nil || d.Type.Params == nil {
+			continue
+		}
+		mf := &markingFunc{decl: d, mapIdx: -1}
+		var objs []types.Object
+		for _, f := range d.Type.Params.List {
+			for _, nm := range f.Names {
+				mf.params = append(mf.params, nm.Name)
+				objs = append(objs, info.Defs[nm])
+			}
+		}
+		if len(mf.params) != len(call.Args) {
+			return nil
+		}
+		ast.Inspect(d.Body, func(n ast.Node) bool {
+			as, ok := n.(*ast.AssignStmt)
+			if !ok || len(as.Lhs) != 1 {
+				return true
+			}
+			ix, ok := as.Lhs[0].(*ast.IndexExpr)
+			if !ok {
+				return true
+			}
+			id, ok := ast.Unparen(ix.X).(*ast.Ident)
+			if !ok {
+				return true
+			}
+			mt, ok := info.TypeOf(id).Underlying().(*types.Map)
+			if !ok || !types.Identical(mt.Key(), types.Typ[types.Int]) || !types.Identical(mt.Elem(), types.Typ[types.Bool]) {
+				return true
+			}
+			for i, o := range objs {
+				if info.Uses[id] == o {
+					mf.mapIdx = i
+				}
+			}
+			return true
+		})
+		if mf.mapIdx >= 0 {
+			return mf
+		}
+	}
+	return nil
+}
+
+// perFilePass finds the per-file pass of fragment() structurally: the function that fragment()
+// calls once for an *ast.File and once per file in a loop over an *ast.Package's Files — a local
+// closure of any name, or a function/method of the package (then returned as a literal made of
+// its type and body). nil when fragment() has no such callee.
+func (e *Env) perFilePass(pkg *packages.Package, fd *ast.FuncDecl) *ast.FuncLit {
+	info := pkg.TypesInfo
+	if fd == nil || fd.Body == nil {
+		return nil
+	}
+	// callees handed a value of type *ast.File, per call expression
+	counts := map[types.Object]int{}
+	inLoop := map[types.Object]bool{}
+	var stack []ast.Node
+	ast.Inspect(fd.Body, func(n ast.Node) bool {
+		if n == nil {
+			stack = stack[:len(stack)-1]
+			return true
+		}
+		stack = append(stack, n)
+		call, ok := n.(*ast.CallExpr)
+		if !ok || len(call.Args) != 1 {
+			return true
+		}
+		if _, tn := namedOf(info.TypeOf(call.Args[0])); tn != "File" {
+			return true
+		}
+		if p, _ := namedOf(info.TypeOf(call.Args[0])); p != "go/ast" {
+			return true
+		}
+		var callee types.Object
+		switch f := call.Fun.(type) {
+		case *ast.Ident:
+			callee = info.Uses[f]
+		case *ast.SelectorExpr:
+			callee = info.Uses[f.Sel]
+		}
+		if callee == nil {
+			return true
+		}
+		counts[callee]++
+		for _, anc := range stack {
+			if rs, ok := anc.(*ast.RangeStmt); ok {
+				if se, ok := ast.Unparen(rs.X).(*ast.SelectorExpr); ok && se.Sel.Name == "Files" {
+					inLoop[callee] = true
+				}
+			}
+		}
+		return true
+	})
+	for callee, k := range counts {
+		if k < 2 || !inLoop[callee] {
+			continue
+		}
+		// a local closure
+		var lit *ast.FuncLit
+		ast.Inspect(fd.Body, func(n ast.Node) bool {
+			if as, ok := n.(*ast.AssignStmt); ok && len(as.Lhs) == 1 && len(as.Rhs) == 1 {
+				if id, ok := as.Lhs[0].(*ast.Ident); ok && (info.Defs[id] == callee || info.Uses[id] == callee) {
+					if fl, ok := as.Rhs[0].(*ast.FuncLit); ok {
+						lit = fl
+					}
+				}
+			}
+			return true
+		})
+		if lit != nil {
+			return lit
+		}
+		// a function or method of the package
+		for _, d := range load.AllFuncDecls(pkg) {
+			if info.Defs[d.Name] == callee && d.Body != nil {
+				return &ast.FuncLit{Type: d.Type, Body: d.Body}
+			}
+		}
+	}
+	return nil
 }
